@@ -3,6 +3,7 @@ package checks
 import (
 	"bytes"
 	"crypto"
+	_ "crypto/md5"
 	_ "crypto/sha1"
 	_ "crypto/sha256"
 	_ "crypto/sha512"
@@ -14,6 +15,10 @@ import (
 
 	"github.com/wollac/iota-crypto-demo/pkg/merkle"
 	_ "golang.org/x/crypto/blake2b"
+	_ "golang.org/x/crypto/blake2s"
+	_ "golang.org/x/crypto/md4"
+	_ "golang.org/x/crypto/ripemd160"
+	_ "golang.org/x/crypto/sha3"
 
 	"verifharness/core"
 )
@@ -183,6 +188,18 @@ func runC15(c *core.Ctx) {
 			}
 		}
 	}
+	// every hash function the crypto package knows and this binary links (tables of per-hash constants, digest sizes
+	// from 16 to 64 bytes): small counts, including none
+	nh := 0
+	for h := crypto.Hash(1); h <= crypto.BLAKE2b_512; h++ {
+		if h.Available() {
+			nh++
+			for n := 0; n <= 40; n++ {
+				add(job{h, n, 0})
+			}
+		}
+	}
+	c.Set("hash_functions", int64(nh))
 	for k := 1; k <= 17; k++ {
 		for _, d := range []int{-1, 0, 1} {
 			if k == 17 && !c.Thorough() && d == 1 {
